@@ -153,4 +153,39 @@ def extra_checks(ctx, cases_, impl_lines, model_lines_):
                         {"case_line": ln, "sizes": sizes}))
             break
     ctx.setdefault("xcheck", {})["huge_sparse_files_run"] = ran
+    if out:
+        return out
+    # Many bytes WRITTEN through one handle (not only found there): 260 records of 16 MiB against a limit of 4 GiB +
+    # 24 MiB (the handle's byte count passes 2^32), and one record of 2 GiB + 1 MiB after 59 pre-existing bytes and a
+    # 100-byte record against a limit of 2 GiB (Linux transfers at most 0x7ffff000 bytes per write call: the record
+    # takes more than one).  What was written is punched out of the file after every consultation, the length stays.
+    MIB = 1 << 20
+    for mode, limit, pre, recs in ((0, 4096 * MIB + 24 * MIB, 0, [16 * MIB] * 260), (1, 2048 * MIB, 59, [100, 2048 * MIB + MIB, 100])):
+        ln = vc.show([98, mode])
+        r = vc.run_lines([ctx["vh"]], [ln], timeout_per_batch=600)[0]
+        try:
+            v = vc.parse(r)
+        except Exception:
+            out.append(("records of %s bytes through one handle: the appender did not survive (%s)" % (sorted(set(recs)), r[:80]),
+                        {"case_line": ln}))
+            break
+        if v == []:
+            continue          # no hole punching on this file system
+        want, size = [], pre
+        for n in recs:
+            size += n
+            fired = 1 if size > limit else 0
+            want.append([size, size, fired])
+            if fired:
+                size = 0
+        want += [0, 0]
+        ctx.setdefault("xcheck", {})["bytes_written_through_one_handle_mode%d" % mode] = sum(recs)
+        if v != want:
+            k = next((i for i, (a, b) in enumerate(zip(v, want)) if a != b), min(len(v), len(want)))
+            out.append(("%d records of %s bytes written through one handle (%d pre-existing bytes, limit %d): consultation %d "
+                        "(shown, on disk, fired) = %r, the property says %r; #errors, #panics = %r" %
+                        (len(recs), sorted(set(recs)), pre, limit, k + 1, v[k] if k < len(v) else None,
+                         want[k] if k < len(want) else None, v[-2:]),
+                        {"case_line": ln}))
+            break
     return out
